@@ -135,6 +135,9 @@ def run_oracles(groups, repo, work, seed, only=None, iters=None):
         out = "TIMEOUT\n" + str(e.stdout or "")
     shutil.rmtree(scratch, ignore_errors=True)
     fails = []
+    if "could not compile" in out and "test result:" not in out:
+        # the oracles no longer build against this tree (an item they use changed shape): no search was made
+        out = "ORACLE-BUILD-FAILED\n" + out
     for ln in out.split("\n"):
         m = re.search(r"REPLAY-FAIL (\{.*\})\s*$", ln.strip())
         if m:
